@@ -26,6 +26,8 @@ pub enum Act {
     Publish(u8, u32),
     Panic,
     Fail,
+    /// `started` fails on every incarnation but the first
+    FailOnRestart,
 }
 
 #[derive(Serialize, Deserialize, Clone, Debug, PartialEq)]
